@@ -233,6 +233,11 @@ LseShapes == {<<3>>, <<2, 3>>, <<1, 3>>, <<3, 1>>} \cup (IF MaxRank >= 3 THEN {<
 ScipyFamily(z) ==
   {S1(p, sh, <<>>, <<>>, 0, 0, NoAx, FALSE, <<>>, "-") : p \in SciUnary, sh \in SciShapes}
   \cup {S1(p, sh, <<>>, <<>>, 1, k, NoAx, FALSE, <<>>, "-") : p \in SciOrder, sh \in SciShapes, k \in 0..3}
+  \* the functions of integer order that are defined on the whole real axis, at negative arguments
+  \cup {S1(p, sh, <<>>, <<>>, 1, k, NoAx, FALSE, <<>>, "neg") : p \in {"special.jn", "special.iv", "special.ive"}, sh \in SciShapes, k \in 0..3}
+  \* the normal distribution far out in either tail (|z| > 40: pdf, cdf or sf underflow, the logarithmic forms are what the tails are for)
+  \cup {S1(p, t[1], t[2], t[3], n, 0, NoAx, FALSE, <<>>, st) : p \in {pp \in SciTernary : pp \in {"stats.norm.pdf", "stats.norm.cdf", "stats.norm.sf",
+           "stats.norm.logpdf", "stats.norm.logcdf", "stats.norm.logsf"}}, t \in SciTriples, n \in 0..2, st \in {"lotail", "hitail"}}
   \cup {S1("special.multigammaln", sh, <<>>, <<>>, 0, d, NoAx, FALSE, <<>>, "-") : sh \in SciShapes, d \in 1..3}
   \cup {S1(p, pr[1], pr[2], <<>>, n, 0, NoAx, FALSE, <<>>, "-") : p \in SciBinary, pr \in SciPairs, n \in {0, 1}}
   \cup {S1(p, t[1], t[2], t[3], n, 0, NoAx, FALSE, <<>>, "-") : p \in SciTernary, t \in SciTriples, n \in 0..2}
@@ -247,7 +252,7 @@ ScipyFamily(z) ==
   \cup {S1("linalg.sqrtm", sh, <<>>, <<>>, 0, 0, NoAx, FALSE, <<>>, "-") : sh \in {<<2, 2>>, <<3, 3>>}}
   \* solve_triangular(a, b, trans, lower): trans as int (ia) or as 'N' / 'T' / 'C'
   \cup {S1("linalg.solve_triangular", <<3, 3>>, b, <<>>, n, tr, NoAx, lo, <<>>, st) :
-           b \in {<<3>>, <<3, 2>>}, n \in {0, 1}, tr \in 0..2, lo \in BOOLEAN, st \in {"int", "str", "default"}}
+           b \in {<<3>>, <<3, 2>>}, n \in {0, 1}, tr \in 0..2, lo \in BOOLEAN, st \in {"int", "str", "default", "overwrite", "unitdiag"}}
   \cup {S1("linalg.solve_sylvester", <<2, 2>>, <<3, 3>>, <<2, 3>>, n, 0, NoAx, FALSE, <<>>, "-") : n \in 0..2}
   \* solve_banded((l, u), ab, b): ab has l + u + 1 rows; argnum 1 = ab, 2 = b
   \cup {S1("linalg.solve_banded", <<lu[1] + lu[2] + 1, 4>>, b, <<>>, n, 0, NoAx, FALSE, lu, "-") :
@@ -257,7 +262,9 @@ ScipyFamily(z) ==
   \cup {S1("signal.convolve", q[1], q[2], <<>>, n, q[3], NoAx, FALSE, <<>>, md) : n \in {0, 1}, md \in {"full", "valid"},
            q \in {<< <<3>>, <<4>>, 0>>, << <<5>>, <<3>>, 0>>, << <<3>>, <<3>>, 0>>, << <<2, 3>>, <<3, 4>>, 0>>, << <<3, 3>>, <<2, 2>>, 0>>,
                   << <<2, 3>>, <<2, 5>>, 1>>, << <<2, 5>>, <<2, 3>>, 1>>, << <<2, 3>>, <<4>>, 2>>, << <<2, 4>>, <<3>>, 2>>,
-                  << <<2, 3>>, <<3, 4>>, 3>>, << <<2, 3>>, <<3, 5>>, 4>>}}
+                  << <<2, 3>>, <<3, 4>>, 3>>, << <<2, 3>>, <<3, 5>>, 4>>,
+                  \* 5: a batch axis on A, two dot axes: axes=([3],[2]) dot_axes=([1,2],[0,1])    6: two kept axes on A, one on B: axes=([2],[1])
+                  << <<2, 4, 5, 3>>, <<4, 5, 6>>, 5>>, << <<2, 4, 5, 6>>, <<4, 5, 3>>, 5>>, << <<2, 3, 5>>, <<4, 3>>, 6>>, << <<2, 3, 3>>, <<4, 5>>, 6>>}}
 
 \* ---------------------------------------------------------------- index expressions  x[idx]  (C11)
 \* An index is a sequence of items (st = "tuple": passed as a tuple; "bare": the single item itself; "list": a top-level Python list).
